@@ -328,20 +328,31 @@ pub unsafe extern "C" fn SFileCreateArchive(
 #[no_mangle]
 pub extern "C" fn SFileCloseArchive(handle: HANDLE) -> bool {
     if let Some(handle_id) = handle_to_id(handle) {
-        // Remove any open files from this archive
+        // Lock order: ARCHIVES, then FILES / FIND_HANDLES (same as SFileOpenFileEx and
+        // SFileFindFirstFile). The archive is removed first and its file and search handles are
+        // purged before ARCHIVES is released, so no handle of a closed archive can survive or be
+        // created concurrently.
+        let mut archives = ARCHIVES.lock().unwrap();
+        let Some(closed) = archives.remove(&handle_id) else {
+            set_last_error(ERROR_INVALID_HANDLE);
+            return false;
+        };
+
+        // Remove any open files and searches of this archive
         FILES
             .lock()
             .unwrap()
             .retain(|_, file| file.archive_handle != handle_id);
+        FIND_HANDLES
+            .lock()
+            .unwrap()
+            .retain(|_, find| find.archive_handle != handle_id);
 
-        // Close the archive
-        if ARCHIVES.lock().unwrap().remove(&handle_id).is_some() {
-            set_last_error(ERROR_SUCCESS);
-            true
-        } else {
-            set_last_error(ERROR_INVALID_HANDLE);
-            false
-        }
+        // Close the archive (flushes a writable archive)
+        drop(closed);
+        drop(archives);
+        set_last_error(ERROR_SUCCESS);
+        true
     } else {
         set_last_error(ERROR_INVALID_HANDLE);
         false
@@ -1941,9 +1952,10 @@ pub unsafe extern "C" fn SFileFindFirstFile(
         }
     };
 
-    // Get file list from archive
+    // Get file list from archive. ARCHIVES stays locked until the search handle is registered, so
+    // that SFileCloseArchive cannot miss it.
+    let mut archives = ARCHIVES.lock().unwrap();
     let file_list = {
-        let mut archives = ARCHIVES.lock().unwrap();
         match archives.get_mut(&archive_id) {
             Some(archive_handle) => {
                 match archive_handle {
@@ -2003,7 +2015,7 @@ pub unsafe extern "C" fn SFileFindFirstFile(
 
     if let Some(file) = found_file {
         // Fill find data
-        fill_find_data(lp_find_file_data, file, archive_id);
+        fill_find_data(lp_find_file_data, file, archives.get_mut(&archive_id));
 
         // Store find handle
         let mut next_id = NEXT_HANDLE.lock().unwrap();
@@ -2071,7 +2083,19 @@ pub unsafe extern "C" fn SFileFindNextFile(
     };
 
     if let Some(file) = found_file {
-        fill_find_data(lp_find_file_data, file, find_handle.archive_handle);
+        // Release FIND_HANDLES before ARCHIVES is taken (lock order: ARCHIVES first)
+        let file = FileEntry {
+            name: file.name.clone(),
+            size: file.size,
+            compressed_size: file.compressed_size,
+            flags: file.flags,
+            hashes: file.hashes,
+            table_indices: file.table_indices,
+        };
+        let archive_id = find_handle.archive_handle;
+        drop(find_handles);
+        let mut archives = ARCHIVES.lock().unwrap();
+        fill_find_data(lp_find_file_data, &file, archives.get_mut(&archive_id));
         set_last_error(ERROR_SUCCESS);
         true
     } else {
@@ -2108,7 +2132,7 @@ pub unsafe extern "C" fn SFileFindClose(h_find: HANDLE) -> bool {
 unsafe fn fill_find_data(
     find_data: *mut SFILE_FIND_DATA,
     file_entry: &FileEntry,
-    archive_id: usize,
+    archive_handle: Option<&mut ArchiveHandle>,
 ) {
     let find_data = &mut *find_data;
 
@@ -2146,9 +2170,8 @@ unsafe fn fill_find_data(
     find_data.file_time_hi = 0;
     find_data.lc_locale = 0; // Locale not directly available in FileEntry
 
-    // Try to get additional info from archive if available
-    let mut archives = ARCHIVES.lock().unwrap();
-    if let Some(archive_handle) = archives.get_mut(&archive_id) {
+    // Try to get additional info from archive if available (the caller holds ARCHIVES)
+    if let Some(archive_handle) = archive_handle {
         match archive_handle {
             ArchiveHandle::ReadOnly { archive, .. } => {
                 // Try to get file attributes for timestamp
